@@ -72,3 +72,35 @@ class Names:
 
     def inverse(self):
         return {v: k for k, v in self.m.items()}
+
+
+def state_names(*automata):
+    st = Names()
+    for c in automata:
+        for q in c['Q']:
+            st(q)
+    return st
+
+
+def symbol_names(*automata):
+    sy = Names()
+    for c in automata:
+        for a in c['Sigma']:
+            sy(a)
+    return sy
+
+
+def dfa(c, st, sy):
+    delta = lst(pair(pair(nat(st(q)), nat(sy(a))), nat(st(q1))) for (q, a, q1) in c['delta'])
+    return '(mkDFA %s %s %s %s %s)' % (nats(st(q) for q in c['Q']), nats(sy(a) for a in c['Sigma']), delta, nat(st(c['q0'])), nats(st(q) for q in c['F']))
+
+
+def nfa(c, st, sy):
+    """sy must map c['eps'] to a code too (call sy(c['eps']) after the alphabet)."""
+    delta = lst(pair(pair(nat(st(q)), nat(sy(a))), nats(st(q1) for q1 in qs)) for (q, a, qs) in c['delta'])
+    return '(mkNFA %s %s %s %s %s %s)' % (nats(st(q) for q in c['Q']), nats(sy(a) for a in c['Sigma']), delta, nat(st(c['q0'])),
+                                          nats(st(q) for q in c['F']), nat(sy(('eps', c['eps']))))
+
+
+def wordc(w, sy):
+    return nats(sy(a) for a in w)
